@@ -272,6 +272,9 @@ func (ws *priorityWriteSchedulerRFC7540) CloseStream(streamID uint32) {
 
 	q := n.q
 	ws.queuePool.put(&q)
+	// The node no longer owns the queue: its frames are discarded, and
+	// the pooled queue must not be aliased by a retained closed node.
+	n.q = writeQueue{}
 	if ws.maxClosedNodesInTree > 0 {
 		ws.addClosedOrIdleNode(&ws.closedNodes, ws.maxClosedNodesInTree, n)
 	} else {
